@@ -179,7 +179,12 @@ def blocks(rng: random.Random, depth: int, n: int, clean=True, **kw) -> list[lis
                 txt = rng.choice(["**" + " ".join(words(rng, 2)) + "**", "***" + " ".join(words(rng, 2)) + "***",
                                   "**bold** and plain", "*" + "**x y**" + "*"])
             if lvl <= 2 and rng.random() < 0.25 and "\n" not in txt and not kw.get("no_setext"):
-                out.append([txt, ("=" if lvl == 1 else "-") * rng.randint(3, 8)])   # setext form
+                toks = _split_keep_atoms(txt)
+                if len(toks) >= 3 and rng.random() < 0.35 and not any(_HAZ_HEAD.match(t) for t in toks):
+                    k = rng.randint(1, len(toks) - 1)           # a setext heading may span several lines
+                    out.append([" ".join(toks[:k]), " ".join(toks[k:]), ("=" if lvl == 1 else "-") * rng.randint(3, 8)])
+                else:
+                    out.append([txt, ("=" if lvl == 1 else "-") * rng.randint(3, 8)])   # setext form
             else:
                 out.append(["#" * lvl + " " + txt])
         elif r < 0.66:
